@@ -8,12 +8,30 @@ list or TransformKey object) with position-only, position+rotation and matrix ar
 or keyword.  Every observable result (`.matrix`, `.position`, rotation as a rotation matrix, labels,
 error kind) is compared with the Lean model `PEval.Transform`.
 
+Two further streams state that the objects answer from what they hold NOW:
+* `regseq` — OPERATION SEQUENCES on one registry: `reg[key] = matrix` (new key, overwrite, overwrite of / registration of
+  the reverse of a key that was answered through the inverse), `del reg[key]`, `copy.deepcopy(reg)` (the sequence goes
+  on with the copy, the original is asked again at the end), arbitrary queries; after construction and after EVERY
+  operation all ordered pairs of the frames in play (direct, inverse, identity, missing) are asked again.  The Lean
+  model replays the sequence (`dictSet` / `dictDel` / `dictTransform` on the current list).
+* `alias` — a transform built from the CALLER'S numpy arrays (position array; quaternion array, 3x3 or 4x4 rotation
+  array; a 4x4 pose given to `from_matrix`, also as a view into a bigger array), observed, then the caller changes
+  those arrays in place (translation advanced / overwritten / zeroed, rotation overwritten) and everything is observed
+  again.
+
 Oracle (independent of the model): the property evaluated on the real results with plain numpy
 algebra on the 4x4 matrices written down from the case — inverse round trips return the probe,
 composites are the numpy product of the inputs / equal the step-by-step transformation / are labelled
 first.src -> last.dst, mismatched compositions raise ValueError, transforming a pose = matrix product,
 and the registry's answer equals identity / registered matrix / numpy inverse of the reverse entry /
 KeyError according to the rule, with the frame name normalised by the harness's own table.
+For a sequence the rule is evaluated, after every step, on the contents written down from the case (dict of the
+harness), and every answer must also equal the answer of a registry built on the spot from those contents; a registry
+left behind by deepcopy keeps answering from its own contents.  For the aliasing stream the oracle states consistency
+of the object with ITSELF: before the caller's change its matrix is the one written down from the case; afterwards,
+whatever 4x4 matrix it presents (kept its own copy, or follows the buffer), transform / inv / dot / the registry's
+inverse answer must be that matrix's product, inverse and composition, and the library must not have written into the
+caller's arrays.
 """
 from __future__ import annotations
 
@@ -34,7 +52,12 @@ RULE = (
     "chains: 1..4 matrices over <=5 frames, each a rational unit quaternion (table of integer quadruples with square norm, "
     "squares u^2/|u|^2 of random integer quaternions, products; sign +/-; 7 input forms) and a dyadic translation, composed by "
     "dot / transform(matrix) / transform(matrix=), with injected frame mismatches and unknown frame names, probed with a "
-    "random pose in 3 rotation forms, positional or keyword; registries: 0..4 matrices (duplicates, reverse pairs, X-to-X "
+    "random pose in 3 rotation forms, positional or keyword; operation sequences: a registry of 0..3 matrices over a pool of 2..4 "
+    "frames, 2..6 operations (assign new/overwrite/reverse key, delete, deepcopy-and-continue, query), every ordered pair of the "
+    "pool + 2 unregistered keys asked after every step, 9 forced shapes (set, del, copy-set, copy-del, ...); aliasing: a matrix "
+    "built from caller-owned ndarrays (ctor with 5 rotation forms, from_matrix, from_matrix of a view), changed in place "
+    "(pos/rot/both; iadd/assign/zero) between two full observations incl. dot on both sides and a registry round trip; "
+    "registries: 0..4 matrices (duplicates, reverse pairs, X-to-X "
     "entries; list/tuple/single/None/__setitem__ construction) and <=6 queries each over all key spellings and forms and 7 "
     "argument kinds; plus every frame X-to-X in all 16 spelling pairs and every ordered pair of frames direct/inverse/missing. "
     "non-trivial = at least one matrix that is not the identity motion, or a registry query; distinct = distinct case JSON"
@@ -50,6 +73,8 @@ THEOREMS = [
         "lookup_registered", "lookup_sound", "lookup_none_iff",
         "lookup_direct", "lookup_inverse", "lookup_identity_key", "frameOfArg_spelling", "transformKey_spelling",
         "mk_spelling", "lookup_identity", "lookup_missing_keyerror", "key_spelling_irrelevant", "key_unknown_name", "registry_roundtrip",
+        "lookup_set", "lookup_erase", "dictDel_spec", "query_after_set_direct", "query_after_set_reverse", "query_after_set_other",
+        "query_after_del", "query_after_del_falls_back",
     ]
 ]
 TRUSTED = [
@@ -63,6 +88,9 @@ ASSUMPTIONS = [
     "rotations are compared as rotation matrices, so q and -q agree (the sign returned by Quaternion(matrix=) is unspecified)",
     "float results are compared with exact rationals within 1e-9 (relative/absolute); translations are dyadic with |t| <= 1024",
     "keys whose components are neither str nor FrameID (None, int) are not generated",
+    "reg[key] = m is generated only with a key naming m's own frames (any spelling), as the constructor registers it",
+    "only numpy arrays handed to the constructor / from_matrix are changed in place (not the internals of a Quaternion object, "
+    "not the attributes of the transform); the attributes .position/.rotation of the transform itself are not compared afterwards",
 ]
 
 SPELLINGS = ("member", "lower", "upper", "mixed")
@@ -395,6 +423,44 @@ def corpus():
     cs.append({"kind": "chain", "mats": [mat([0.0, 0.0, 0.0], half, "MAP", "MAP", "mat4"), mat([1.0, 0.0, 0.0], ["0", "0", "0", "-1"], "MAP", "BASE_LINK", "from_matrix")],
                "via": ["tf_kw"], "probe": probe})
     cs.append({"kind": "chain", "mats": [mat([0.0, 0.0, 0.0], one, "MAP", "BASE_LINK", "tuple", "bad")], "via": [], "probe": probe})
+    # a registry answers from its CURRENT contents: the ego pose of the next frame is registered under the same key
+    # after map->base_link was asked (answered through the inverse), then the key is deleted; the same on a deep copy
+    ego2map2 = mat([25.0, 3.0, 0.75], q7n, "BASE_LINK", "MAP", "quatobj", "lower", "lower")
+    map2ego = mat([-3.0, 0.5, 0.0], half, "MAP", "BASE_LINK")
+
+    def pk(a, b, asp="member", bsp="member", form="tuple", call="args"):
+        return {"src": a, "src_sp": asp, "dst": b, "dst_sp": bsp, "form": form, "call": call}
+
+    pks = [pk("BASE_LINK", "BASE_LINK", "lower", "upper"), pk("BASE_LINK", "MAP", "lower", "lower"), pk("MAP", "BASE_LINK", "member", "lower", "key"),
+           pk("MAP", "MAP"), pk("BASE_LINK", "CAM_FRONT"), pk("CAM_FRONT", "MAP", "upper", "mixed", "list", "kw")]
+
+    def st(m, form="tuple"):
+        return {"op": "set", "mat": m, "src_sp": "lower", "dst_sp": "lower", "form": form}
+
+    def dl(a, b, form="tuple"):
+        return {"op": "del", "src": a, "src_sp": "member", "dst": b, "dst_sp": "member", "form": form}
+
+    cs.append({"kind": "regseq", "init": "single", "mats": [ego2map], "ops": [st(ego2map2), dl("BASE_LINK", "MAP")], "probes": pks, "parg": ppose})
+    cs.append({"kind": "regseq", "init": "list", "mats": [ego2map], "ops": [{"op": "copy"}, st(ego2map2, "key"), {"op": "copy"}, dl("BASE_LINK", "MAP", "key"),
+               st(map2ego, "list"), dl("MAP", "BASE_LINK"), dl("MAP", "BASE_LINK")], "probes": pks, "parg": ppos})
+    cs.append({"kind": "regseq", "init": "none", "mats": [], "ops": [st(ego2map), st(map2ego), dl("BASE_LINK", "MAP"), st(ego2map2),
+               {"op": "query", **pk("MAP", "BASE_LINK", "upper", "upper"), "arg": {"kind": "mat", **mat([0.0, 1.0, 0.0], half, "BASE_LINK", "LIDAR_TOP")}}],
+               "probes": pks, "parg": ppose})
+    # a transform agrees with itself whatever the caller later does with the arrays it passed in: one 4x4 ego pose
+    # advanced in place for the next frame; a position buffer reused; rotation arrays overwritten
+    post, pre = mat([0.5, 0.0, 2.0], half, "MAP", "LIDAR_TOP"), mat([2.0, 2.0, 2.0], q7n, "CAM_FRONT", "BASE_LINK")
+    a0 = mat([100.0, 50.0, 1.0], q5, "BASE_LINK", "MAP", "ndarray", "lower", "lower")
+
+    def al(build, what, how, pos, q=one):
+        return {"kind": "alias", "mats": [], "mat": a0, "build": build, "mut": {"what": what, "how": how, "pos": pos, "q": q},
+                "post": post, "pre": pre, "probe": probe}
+
+    cs.append(al({"how": "from_matrix"}, "pos", "iadd", [102.0, 51.5, 1.0]))
+    cs.append(al({"how": "ctor", "rot_form": "tuple"}, "pos", "zero", [0.0, 0.0, 0.0]))
+    cs.append(al({"how": "ctor", "rot_form": "quat_array"}, "both", "assign", [5.0, 6.0, 7.0], q7n))
+    cs.append(al({"how": "ctor", "rot_form": "mat3"}, "rot", "assign", [0.0, 0.0, 0.0], half))
+    cs.append(al({"how": "ctor", "rot_form": "mat4"}, "both", "iadd", [-8.0, 0.25, 3.0], half))
+    cs.append(al({"how": "from_matrix_view"}, "both", "assign", [1.0, 2.0, 3.0], q7n))
     return cs
 
 
@@ -457,6 +523,109 @@ def _gen_registry(rng, frames):
     return {"kind": "registry", "init": init, "mats": mats, "queries": queries}
 
 
+ALIAS_BUILDS = ("ctor", "ctor", "from_matrix", "from_matrix_view")
+ALIAS_ROT = ("tuple", "quatobj", "quat_array", "mat3", "mat4")  # rotation argument next to a position ndarray
+
+
+def _rand_probe_keys(rng, pool, outside):
+    """every ordered pair of the pool (X-to-X included) and two keys nothing is registered for"""
+    pairs = [(a, b) for a in pool for b in pool] + [(pool[0], outside), (outside, pool[-1])]
+    return [{"src": a, "src_sp": rng.choice(SPELLINGS), "dst": b, "dst_sp": rng.choice(SPELLINGS),
+             "form": rng.choice(["tuple", "list", "key"]), "call": rng.choice(["args", "kw"])} for a, b in pairs]
+
+
+def _gen_regseq(rng, frames, force=None):
+    """one registry and a sequence of assignments / deletions / deep copies / queries; after every
+    step the whole probe set (all pairs of the pool) is asked again"""
+    pool = rng.sample(frames, rng.choice([2, 3, 3, 3, 3, 4]))
+    outside = rng.choice([f for f in frames if f not in pool])
+    mats = []
+    for _ in range(rng.choice([0, 1, 1, 1, 2, 2, 3])):
+        if mats and rng.random() < 0.25:
+            prev = rng.choice(mats)
+            s, d = (prev["src"], prev["dst"]) if rng.random() < 0.5 else (prev["dst"], prev["src"])
+        else:
+            s, d = rng.sample(pool, 2) if rng.random() < 0.9 else [rng.choice(pool)] * 2
+        mats.append(_rand_mat(rng, s, d))
+    init = "none" if not mats and rng.random() < 0.5 else rng.choice(["list", "tuple", "setitem"] + (["single"] if len(mats) == 1 else []))
+    keys = []
+    for m in mats:
+        if _spec_key(m) not in keys:
+            keys.append(_spec_key(m))
+    ops = []
+    plan = list(force) if force else [None] * rng.randint(2, 6)
+    for want in plan:
+        r = rng.random()
+        kind = want or ("set" if r < 0.5 else "del" if r < 0.7 else "copy" if r < 0.82 else "query")
+        if kind == "del" and not keys and rng.random() < 0.8:
+            kind = "set"
+        if kind == "set":
+            c = rng.random()
+            only = [k for k in keys if (k[1], k[0]) not in keys and k[0] != k[1]]
+            if only and c < 0.45:      # overwrite a key whose reverse is answered through the inverse
+                s, d = rng.choice(only)
+            elif only and c < 0.6:     # register the reverse of such a key: direct answer replaces the inverse
+                d, s = rng.choice(only)
+            elif keys and c < 0.7:     # overwrite any key
+                s, d = rng.choice(keys)
+            else:                      # (mostly) a new key
+                s, d = rng.sample(pool, 2) if rng.random() < 0.93 else [rng.choice(pool)] * 2
+            ops.append({"op": "set", "mat": _rand_mat(rng, s, d), "src_sp": rng.choice(SPELLINGS), "dst_sp": rng.choice(SPELLINGS),
+                        "form": rng.choice(["tuple", "list", "key"])})
+            if (s, d) not in keys:
+                keys.append((s, d))
+        elif kind == "del":
+            if keys and rng.random() < 0.88:
+                s, d = rng.choice(keys)
+            else:
+                s, d = rng.choice(pool), rng.choice(pool)  # possibly not registered
+            ops.append({"op": "del", "src": s, "src_sp": rng.choice(SPELLINGS), "dst": d, "dst_sp": rng.choice(SPELLINGS),
+                        "form": rng.choice(["tuple", "list", "key"])})
+            if (s, d) in keys:
+                keys.remove((s, d))
+        elif kind == "copy":
+            ops.append({"op": "copy"})
+        else:
+            if keys and rng.random() < 0.6:
+                s, d = rng.choice(keys)
+                if rng.random() < 0.6:
+                    s, d = d, s
+            else:
+                s, d = rng.choice(pool + [outside]), rng.choice(pool)
+            ops.append({"op": "query", "src": s, "src_sp": _rand_sp(rng, 0.03), "dst": d, "dst_sp": _rand_sp(rng, 0.03),
+                        "form": rng.choice(["tuple", "list", "key"]), "call": rng.choice(["args", "kw"]),
+                        "arg": _rand_arg(rng, frames, d)})
+    if rng.random() < 0.7:
+        parg = {"kind": "pose", "pos": _rand_pos(rng), "q": _rand_quat(rng), "rot_form": rng.choice(ROT_FORMS)}
+    else:
+        parg = {"kind": "pos", "pos": _rand_pos(rng)}
+    return {"kind": "regseq", "init": init, "mats": mats, "ops": ops, "probes": _rand_probe_keys(rng, pool, outside), "parg": parg}
+
+
+def _gen_alias(rng, frames):
+    """a transform built from the caller's numpy arrays, which the caller then changes in place"""
+    w, x, y, z = rng.sample(frames, 4)
+    how = rng.choice(ALIAS_BUILDS)
+    build = {"how": how}
+    if how == "ctor":
+        build["rot_form"] = rng.choice(ALIAS_ROT)
+    can_rot = how != "ctor" or build["rot_form"] in ("quat_array", "mat3", "mat4")
+    what = rng.choice(["pos", "pos", "rot", "both"]) if can_rot else "pos"
+    mhow = rng.choice(["iadd", "iadd", "assign", "zero"])
+    spec = _rand_mat(rng, x, y)
+    spec["input"] = "ndarray"
+    while True:
+        mut = {"what": what, "how": mhow, "pos": [0.0, 0.0, 0.0] if mhow == "zero" else _rand_pos(rng), "q": _rand_quat(rng)}
+        moved = what in ("pos", "both") and mut["pos"] != spec["pos"]
+        turned = what in ("rot", "both") and [abs(_F(c)) for c in mut["q"]] != [abs(_F(c)) for c in spec["q"]]
+        if moved or turned:
+            break
+        if mhow == "zero":
+            spec["pos"] = [core.dyadic(rng, 1, 64, 8) for _ in range(3)]
+    return {"kind": "alias", "mats": [], "mat": spec, "build": build, "mut": mut, "post": dict(_rand_mat(rng, y, z), input="tuple"),
+            "pre": dict(_rand_mat(rng, w, x), input="tuple"), "probe": _rand_probe(rng)}
+
+
 def _systematic(rng, frames, tier):
     """every frame X-to-X in all spelling pairs; every ordered pair direct / inverse / missing"""
     cs = []
@@ -490,6 +659,21 @@ def generate(rng, tier):
     for _ in range(n):
         cases.append(_gen_chain(rng, frames))
         cases.append(_gen_registry(rng, frames))
+    cases.extend(_sequences_and_aliases(rng, frames, 400 if tier == "quick" else 3000))
+    return cases
+
+
+def _sequences_and_aliases(rng, frames, n):
+    cases = []
+    # the shapes that must occur: ask, modify, ask again (directly and on a deep copy)
+    shapes = [("set",), ("del",), ("copy", "set"), ("copy", "del"), ("set", "copy", "set"), ("set", "del"), ("del", "set"),
+              ("query", "set", "query"), ("copy", "copy", "set")]
+    for sh in shapes:
+        for _ in range(6):
+            cases.append(_gen_regseq(rng, frames, force=sh))
+    for _ in range(n):
+        cases.append(_gen_regseq(rng, frames))
+        cases.append(_gen_alias(rng, frames))
     return cases
 
 
@@ -505,9 +689,224 @@ def _build_all(specs):
     return mats, None
 
 
+def _construct_registry(init, mats, specs):
+    from perception_eval.common.transform import TransformDict, TransformKey
+
+    if init == "none":
+        return TransformDict(None) if not mats else TransformDict(mats)
+    if init == "single" and len(mats) == 1:
+        return TransformDict(mats[0])
+    if init == "tuple":
+        return TransformDict(tuple(mats))
+    if init == "setitem":
+        td = TransformDict()
+        for i, (m, s) in enumerate(zip(mats, specs)):
+            k = (_frame_arg(s["src"], "upper" if i % 2 else "member"), _frame_arg(s["dst"], "lower"))
+            td[TransformKey(*k) if i % 3 == 0 else k] = m
+        return td
+    return TransformDict(mats)
+
+
+def _mk_key(src, ssp, dst, dsp, form):
+    from perception_eval.common.transform import TransformKey
+
+    ks, kd = _frame_arg(src, ssp), _frame_arg(dst, dsp)
+    return TransformKey(ks, kd) if form == "key" else ([ks, kd] if form == "list" else (ks, kd))
+
+
+def _answer(td, qd, mats):
+    """td.transform(key, ...) for one query description"""
+    a = qd["arg"]
+    pos = tuple(a["pos"]) if "pos" in a and a["kind"] != "mat" else (1.0, 2.0, 3.0)
+    rot = _rot_arg(a["q"], a["rot_form"]) if a["kind"] == "pose" else (1.0, 0.0, 0.0, 0.0)
+    mat = None
+    if a["kind"] == "mat":
+        try:
+            mat = _build(a)
+        except Exception as e:  # noqa
+            return {"arg_err": type(e).__name__}
+    elif a["kind"] == "posandmat":
+        mat = mats[0] if mats else None
+
+    def run():
+        key = _mk_key(qd["src"], qd["src_sp"], qd["dst"], qd["dst_sp"], qd["form"])
+        return _call_transform(td, key, a["kind"], pos, rot, mat, qd["call"])
+
+    return _try(run)
+
+
+# ----------------------------------------------------------------------------- operation sequences on one registry
+
+def _spec_key(spec):
+    return (spec["src"], spec["dst"])
+
+
+def _seq_contents(case):
+    """what the registry holds after construction and after every operation, written down from the
+    case alone: a list (one entry per step) of dicts (src, dst) -> matrix spec.  `reg[key] = m` puts m
+    under its key, `del reg[key]` removes the key (nothing happens when it is absent), `deepcopy` and
+    queries change nothing."""
+    cur = {}
+    for sp in case["mats"]:
+        cur[_spec_key(sp)] = sp
+    steps = [dict(cur)]
+    for op in case["ops"]:
+        if op["op"] == "set":
+            cur[_spec_key(op["mat"])] = op["mat"]
+        elif op["op"] == "del":
+            cur.pop((op["src"], op["dst"]), None)
+        steps.append(dict(cur))
+    return steps
+
+
+def _probe_queries(case):
+    return [dict(pq, arg=case["parg"]) for pq in case["probes"]]
+
+
+def _run_regseq(case, mats):
+    import copy
+
+    from perception_eval.common.transform import TransformDict
+
+    try:
+        td = _construct_registry(case["init"], mats, case["mats"])
+    except Exception as e:  # noqa
+        return {"err": type(e).__name__, "at": -1}
+    probes = _probe_queries(case)
+    contents = _seq_contents(case)
+
+    ref = {"cont": None, "answers": None}
+
+    def observe(reg, cont, res):
+        # the same questions to a registry built on the spot from what is registered now (the reference answers are
+        # kept as long as the contents stay the same)
+        if ref["cont"] != cont:
+            fresh = TransformDict([_build(sp) for sp in cont.values()])
+            ref["cont"], ref["answers"] = cont, [_answer(fresh, qd, mats) for qd in probes]
+        return {"res": res, "probes": [_answer(reg, qd, mats) for qd in probes], "fresh": ref["answers"], "len": len(reg)}
+
+    steps = [observe(td, contents[0], None)]
+    olds = []
+    for i, op in enumerate(case["ops"]):
+        res = None
+        try:
+            if op["op"] == "set":
+                sp = op["mat"]
+                td[_mk_key(sp["src"], op["src_sp"], sp["dst"], op["dst_sp"], op["form"])] = _build(sp)
+            elif op["op"] == "del":
+                del td[_mk_key(op["src"], op["src_sp"], op["dst"], op["dst_sp"], op["form"])]
+            elif op["op"] == "copy":
+                olds.append((td, contents[i + 1]))
+                td = copy.deepcopy(td)
+            else:
+                res = _answer(td, op, mats)
+        except Exception as e:  # noqa
+            res = {"err": type(e).__name__}
+        steps.append(observe(td, contents[i + 1], res))
+    # the registries left behind by deepcopy still answer from THEIR contents
+    return {"steps": steps, "olds": [observe(o, c, None) for o, c in olds]}
+
+
+# ----------------------------------------------------------------------------- caller-owned arrays changed in place
+
+def _alias_follow_spec(case):
+    """the spec the caller's arrays denote after the in-place change"""
+    spec, mut = case["mat"], case["mut"]
+    sp = dict(spec)
+    if mut["what"] in ("pos", "both"):
+        sp["pos"] = list(mut["pos"])
+    if mut["what"] in ("rot", "both"):
+        sp["q"] = list(mut["q"])
+    return sp
+
+
+def _run_alias(case):
+    import numpy as np
+    from perception_eval.common.transform import HomogeneousMatrix, TransformDict
+
+    spec, b, mut, probe = case["mat"], case["build"], case["mut"], case["probe"]
+    src, dst = _frame_arg(spec["src"], spec["src_sp"]), _frame_arg(spec["dst"], spec["dst_sp"])
+    M0 = _spec_matrix(spec)
+    M1 = _spec_matrix(_alias_follow_spec(case))
+    q1 = [float(_F(c)) for c in _alias_follow_spec(case)["q"]]
+    bufs = {}
+    # ---- the caller's arrays and the transform made from them
+    if b["how"] == "ctor":
+        bufs["pos"] = np.array(spec["pos"], dtype=float)
+        rf = b["rot_form"]
+        if rf == "quat_array":
+            bufs["rot"] = np.array([float(_F(c)) for c in spec["q"]])
+        elif rf == "mat3":
+            bufs["rot"] = M0[:3, :3].copy()
+        elif rf == "mat4":
+            bufs["rot"] = np.eye(4)
+            bufs["rot"][:3, :3] = M0[:3, :3]
+        rot = bufs["rot"] if "rot" in bufs else _rot_arg(spec["q"], rf)
+        A = HomogeneousMatrix(bufs["pos"], rot, src, dst)
+        pos_view = bufs["pos"]
+    elif b["how"] == "from_matrix":
+        bufs["mat"] = M0.copy()
+        A = HomogeneousMatrix.from_matrix(bufs["mat"], src, dst)
+        pos_view = bufs["mat"][:3, 3]
+    else:  # a 4x4 slice of a bigger array of poses
+        bufs["stack"] = np.stack([np.eye(4), M0.copy(), np.eye(4)])
+        A = HomogeneousMatrix.from_matrix(bufs["stack"][1], src, dst)
+        pos_view = bufs["stack"][1][:3, 3]
+    B, C = _build(case["post"]), _build(case["pre"])
+    written = {k: v.copy() for k, v in bufs.items()}
+    p = tuple(probe["pos"])
+    r = _rot_arg(probe["q"], probe["rot_form"])
+
+    def observe():
+        d = _info(A, probe)
+        d["post"] = _try(lambda: B.dot(A))
+        d["post_tf"] = _try(lambda: A.transform(B))
+        d["pre"] = _try(lambda: A.dot(C))
+        d["pre_tf"] = _try(lambda: C.transform(matrix=A))
+        d["inv_dot"] = _try(lambda: A.inv().dot(A))
+        d["dot_inv"] = _try(lambda: A.dot(A.inv()))
+        reg = TransformDict(A)
+        d["reg_fwd"] = _try(lambda: reg.transform((src, dst), p, r))
+
+        def back():
+            f = reg.transform((src, dst), p, r)
+            return reg.transform((dst, src), f[0], f[1])
+
+        d["reg_rt"] = _try(back)
+        return d
+
+    out = {"before": observe()}
+    intact = all(np.array_equal(bufs[k], written[k]) for k in bufs)
+    # ---- the caller goes on using its arrays
+    if mut["what"] in ("pos", "both"):
+        new = np.array(mut["pos"], dtype=float)
+        if mut["how"] == "iadd":
+            pos_view += new - np.array(spec["pos"], dtype=float)
+        elif mut["how"] == "zero":
+            pos_view *= 0.0
+        else:
+            pos_view[:] = new
+    if mut["what"] in ("rot", "both"):
+        if b["how"] == "ctor":
+            if b["rot_form"] == "quat_array":
+                bufs["rot"][:] = q1
+            else:
+                bufs["rot"][:3, :3] = M1[:3, :3]
+        elif b["how"] == "from_matrix":
+            bufs["mat"][:3, :3] = M1[:3, :3]
+        else:
+            bufs["stack"][1][:3, :3] = M1[:3, :3]
+    written = {k: v.copy() for k, v in bufs.items()}
+    out["after"] = observe()
+    out["inputs_intact"] = bool(intact and all(np.array_equal(bufs[k], written[k]) for k in bufs))
+    return out
+
+
 def run_impl(case):
     import numpy as np
 
+    if case["kind"] == "alias":
+        return _run_alias(case)
     mats, err = _build_all(case["mats"])
     if err:
         return err
@@ -541,47 +940,14 @@ def run_impl(case):
             out["comps"].append(_info(acc, probe))
         return out
     if case["kind"] == "registry":
-        from perception_eval.common.transform import TransformDict, TransformKey
-
-        init = case["init"]
         try:
-            if init == "none":
-                td = TransformDict(None) if not mats else TransformDict(mats)
-            elif init == "single" and len(mats) == 1:
-                td = TransformDict(mats[0])
-            elif init == "tuple":
-                td = TransformDict(tuple(mats))
-            elif init == "setitem":
-                td = TransformDict()
-                for i, (m, s) in enumerate(zip(mats, case["mats"])):
-                    k = (_frame_arg(s["src"], "upper" if i % 2 else "member"), _frame_arg(s["dst"], "lower"))
-                    td[TransformKey(*k) if i % 3 == 0 else k] = m
-            else:
-                td = TransformDict(mats)
+            td = _construct_registry(case["init"], mats, case["mats"])
         except Exception as e:  # noqa
             return {"err": type(e).__name__, "at": -1}
-        answers = []
-        for qd in case["queries"]:
-            a = qd["arg"]
-            pos = tuple(a["pos"]) if "pos" in a and a["kind"] != "mat" else (1.0, 2.0, 3.0)
-            rot = _rot_arg(a["q"], a["rot_form"]) if a["kind"] == "pose" else (1.0, 0.0, 0.0, 0.0)
-            mat = None
-            if a["kind"] == "mat":
-                try:
-                    mat = _build(a)
-                except Exception as e:  # noqa
-                    answers.append({"arg_err": type(e).__name__})
-                    continue
-            elif a["kind"] == "posandmat":
-                mat = mats[0] if mats else None
-
-            def run():
-                ks, kd = _frame_arg(qd["src"], qd["src_sp"]), _frame_arg(qd["dst"], qd["dst_sp"])
-                key = TransformKey(ks, kd) if qd["form"] == "key" else ([ks, kd] if qd["form"] == "list" else (ks, kd))
-                return _call_transform(td, key, a["kind"], pos, rot, mat, qd["call"])
-
-            answers.append(_try(run))
+        answers = [_answer(td, qd, mats) for qd in case["queries"]]
         return {"answers": answers, "len": len(td)}
+    if case["kind"] == "regseq":
+        return _run_regseq(case, mats)
     raise ValueError(case["kind"])
 
 
@@ -592,24 +958,70 @@ def _model_mat(spec):
             "src": _model_arg(spec["src"], spec["src_sp"]), "dst": _model_arg(spec["dst"], spec["dst_sp"])}
 
 
+def _model_targ(a):
+    if a["kind"] == "pos":
+        return {"kind": "pos", "pos": [core.q(c) for c in a["pos"]]}
+    if a["kind"] == "pose":
+        return {"kind": "pose", "pos": [core.q(c) for c in a["pos"]], "q": list(a["q"])}
+    if a["kind"] == "mat":
+        return {"kind": "mat", **_model_mat(a)}
+    return {"kind": a["kind"]}
+
+
+def _model_query(qd):
+    return {"src": _model_arg(qd["src"], qd["src_sp"]), "dst": _model_arg(qd["dst"], qd["dst_sp"])}
+
+
+def _model_probe(pr):
+    return {"pos": [core.q(c) for c in pr["pos"]], "q": list(pr["q"])}
+
+
+def _alias_after_spec(case, out):
+    """which matrix the real object presents after the caller changed its arrays: the one it was built
+    from, the one the arrays denote now, or a mixture of the two (None: none of them)"""
+    import numpy as np
+
+    try:
+        M = np.array(out["after"]["m"]["mat"], dtype=float)
+    except Exception:  # noqa
+        return None, "none"
+    spec, fol = case["mat"], _alias_follow_spec(case)
+    cands = [("kept", spec), ("follows", fol), ("mixed", dict(spec, pos=fol["pos"])), ("mixed", dict(spec, q=fol["q"]))]
+    for name, sp in cands:
+        if M.shape == (4, 4) and _close_list(M, _spec_matrix(sp)):
+            return sp, name
+    return None, "none"
+
+
 def model_requests(case, out):
+    if case["kind"] == "alias":
+        if "before" not in out:
+            return []
+        reqs = [{"op": "chain", "mats": [_model_mat(case["mat"])], "via": [], "probe": _model_probe(case["probe"])}]
+        sp, _ = _alias_after_spec(case, out)
+        if sp is not None:
+            reqs.append({"op": "chain", "mats": [_model_mat(sp)], "via": [], "probe": _model_probe(case["probe"])})
+        return reqs
     mats = [_model_mat(s) for s in case["mats"]]
     if case["kind"] == "chain":
-        pr = case["probe"]
         return [{"op": "chain", "mats": mats, "via": ["dot" if v == "dot" else "tf" for v in case["via"]],
-                 "probe": {"pos": [core.q(c) for c in pr["pos"]], "q": list(pr["q"])}}]
-    qs = []
-    for qd in case["queries"]:
-        a = qd["arg"]
-        if a["kind"] == "pos":
-            arg = {"kind": "pos", "pos": [core.q(c) for c in a["pos"]]}
-        elif a["kind"] == "pose":
-            arg = {"kind": "pose", "pos": [core.q(c) for c in a["pos"]], "q": list(a["q"])}
-        elif a["kind"] == "mat":
-            arg = {"kind": "mat", **_model_mat(a)}
-        else:
-            arg = {"kind": a["kind"]}
-        qs.append({"src": _model_arg(qd["src"], qd["src_sp"]), "dst": _model_arg(qd["dst"], qd["dst_sp"]), "arg": arg})
+                 "probe": _model_probe(case["probe"])}]
+    if case["kind"] == "regseq":
+        ops = []
+        for op in case["ops"]:
+            if op["op"] == "set":
+                sp = op["mat"]  # the model keys a matrix by its labels: hand them over in the spelling of the key
+                ops.append({"op": "set", "mat": dict(_model_mat(sp), src=_model_arg(sp["src"], op["src_sp"]),
+                                                     dst=_model_arg(sp["dst"], op["dst_sp"]))})
+            elif op["op"] == "del":
+                ops.append({"op": "del", **_model_query(op)})
+            elif op["op"] == "copy":
+                ops.append({"op": "copy"})
+            else:
+                ops.append({"op": "query", **_model_query(op), "arg": _model_targ(op["arg"])})
+        return [{"op": "regseq", "mats": mats, "ops": ops, "probes": [_model_query(pq) for pq in case["probes"]],
+                 "parg": _model_targ(case["parg"])}]
+    qs = [dict(_model_query(qd), arg=_model_targ(qd["arg"])) for qd in case["queries"]]
     return [{"op": "registry", "mats": mats, "queries": qs}]
 
 
@@ -655,6 +1067,19 @@ def _short(x):
 
 
 def compare(case, out, resps):
+    if case["kind"] == "alias":
+        # the model knows one matrix at a time: before the caller touches its arrays it is the matrix the
+        # transform was built from; afterwards the one the real object presents (kept / follows / mixture)
+        for phase, resp in zip(("before", "after"), resps):
+            if "mats" not in resp:
+                return f"{phase}: model rejected the matrix: {_short(resp)}"
+            m = dict(resp["mats"][0])
+            if phase == "after":  # .position / .rotation of the object itself are not results of transform/inv/dot
+                m["m"] = {k: v for k, v in m["m"].items() if k not in ("pos", "rot")}
+            d = _cmp(out[phase], m, phase)
+            if d:
+                return d
+        return None
     r = dict(resps[0])
     r.pop("id", None)
     return _cmp(out, r)
@@ -712,6 +1137,8 @@ def _check_info(tag, d, M, src, dst, probe_pose, G):
 def oracle(case, out):
     import numpy as np
 
+    if case["kind"] == "alias":
+        return _oracle_alias(case, out)
     specs = case["mats"]
     names = [(_norm_name(s["src"], s["src_sp"]), _norm_name(s["dst"], s["dst_sp"])) for s in specs]
     bad = next((i for i, (a, b) in enumerate(names) if a is None or b is None), None)
@@ -754,55 +1181,184 @@ def oracle(case, out):
             if "err" in step or not _pose_close(c["tf_pose"], step):
                 return f"C{i}.transform(p, r) = {c['tf_pose']} but step by step gives {step}"
         return None
+    if case["kind"] == "regseq":
+        return _oracle_regseq(case, out)
     # registry
     answers = out["answers"]
     table = {}
-    for i, k in enumerate(names):
-        table[k] = i  # later registrations overwrite
+    for k, M in zip(names, Ms):
+        table[k] = M  # later registrations overwrite
     if out.get("len") != len(table):
         return f"registry holds {out.get('len')} entries, {len(table)} distinct keys were registered"
     for qd, ans in zip(case["queries"], answers):
-        s, t = _norm_name(qd["src"], qd["src_sp"]), _norm_name(qd["dst"], qd["dst_sp"])
-        a = qd["arg"]
-        where = f"transform(({qd['src']}:{qd['src_sp']}, {qd['dst']}:{qd['dst_sp']}), {a['kind']})"
-        if s is None or t is None or a["kind"] in MALFORMED or "arg_err" in ans:
-            continue  # unknown names / malformed calls: not constrained by the property
-        if a["kind"] == "mat":
-            ns, nd = _norm_name(a["src"], a["src_sp"]), _norm_name(a["dst"], a["dst_sp"])
-            N = _spec_matrix(a)
-        if s == t:  # input unchanged
-            if a["kind"] == "pos":
-                want = {"pos": list(a["pos"])}
-            elif a["kind"] == "pose":
-                want = _pose_of_matrix(_pose_matrix(a["pos"], a["q"]))
-            else:
-                want = {"mat": N.tolist(), "src": ns, "dst": nd}
+        f = _check_query(qd, ans, table)
+        if f:
+            return f
+    return None
+
+
+def _check_query(qd, ans, table):
+    """the registry rule for one query, `table` = what is registered at the time: (src, dst) -> 4x4 numpy matrix"""
+    import numpy as np
+
+    s, t = _norm_name(qd["src"], qd["src_sp"]), _norm_name(qd["dst"], qd["dst_sp"])
+    a = qd["arg"]
+    where = f"transform(({qd['src']}:{qd['src_sp']}, {qd['dst']}:{qd['dst_sp']}), {a['kind']})"
+    if s is None or t is None or a["kind"] in MALFORMED or "arg_err" in ans:
+        return None  # unknown names / malformed calls: not constrained by the property
+    if a["kind"] == "mat":
+        ns, nd = _norm_name(a["src"], a["src_sp"]), _norm_name(a["dst"], a["dst_sp"])
+        N = _spec_matrix(a)
+    if s == t:  # input unchanged
+        if a["kind"] == "pos":
+            want = {"pos": list(a["pos"])}
+        elif a["kind"] == "pose":
+            want = _pose_of_matrix(_pose_matrix(a["pos"], a["q"]))
         else:
-            if (s, t) in table:
-                T = Ms[table[(s, t)]]
-            elif (t, s) in table:
-                T = np.linalg.inv(Ms[table[(t, s)]])
-            else:
-                if ans.get("err") != "KeyError":
-                    return f"{where}: neither direction registered, expected KeyError, got {_short(ans)}"
-                continue
-            if a["kind"] == "pos":
-                want = {"pos": (T @ np.array(list(a["pos"]) + [1.0]))[:3].tolist()}
-            elif a["kind"] == "pose":
-                want = _pose_of_matrix(T @ _pose_matrix(a["pos"], a["q"]))
-            else:
-                if ns != t:  # the argument does not start where the transform ends
-                    if ans.get("err") != "ValueError":
-                        return f"{where}: matrix {ns}->{nd} does not connect to {s}->{t}, expected ValueError, got {_short(ans)}"
-                    continue
-                want = {"mat": (N @ T).tolist(), "src": s, "dst": nd}
-        if "err" in ans:
-            return f"{where}: raised {ans['err']}, expected {_short(want)}"
-        if "mat" in want:
-            if "mat" not in ans or not _close_list(ans["mat"], want["mat"]) or (ans["src"], ans["dst"]) != (want["src"], want["dst"]):
-                return f"{where}: got {_short(ans)}, expected {_short(want)}"
-        elif "mat" in ans or ("rot" in want) != ("rot" in ans) or not _pose_close(ans, want):
+            want = {"mat": N.tolist(), "src": ns, "dst": nd}
+    else:
+        if (s, t) in table:
+            T = table[(s, t)]
+        elif (t, s) in table:
+            T = np.linalg.inv(table[(t, s)])
+        else:
+            if ans.get("err") != "KeyError":
+                return f"{where}: neither direction registered, expected KeyError, got {_short(ans)}"
+            return None
+        if a["kind"] == "pos":
+            want = {"pos": (T @ np.array(list(a["pos"]) + [1.0]))[:3].tolist()}
+        elif a["kind"] == "pose":
+            want = _pose_of_matrix(T @ _pose_matrix(a["pos"], a["q"]))
+        else:
+            if ns != t:  # the argument does not start where the transform ends
+                if ans.get("err") != "ValueError":
+                    return f"{where}: matrix {ns}->{nd} does not connect to {s}->{t}, expected ValueError, got {_short(ans)}"
+                return None
+            want = {"mat": (N @ T).tolist(), "src": s, "dst": nd}
+    if "err" in ans:
+        return f"{where}: raised {ans['err']}, expected {_short(want)}"
+    if "mat" in want:
+        if "mat" not in ans or not _close_list(ans["mat"], want["mat"]) or (ans["src"], ans["dst"]) != (want["src"], want["dst"]):
             return f"{where}: got {_short(ans)}, expected {_short(want)}"
+    elif "mat" in ans or ("rot" in want) != ("rot" in ans) or not _pose_close(ans, want):
+        return f"{where}: got {_short(ans)}, expected {_short(want)}"
+    return None
+
+
+def _describe_op(op):
+    if op is None:
+        return "construction"
+    if op["op"] == "set":
+        sp = op["mat"]
+        return f"reg[({sp['src']}:{op['src_sp']}, {sp['dst']}:{op['dst_sp']})] = matrix"
+    if op["op"] == "del":
+        return f"del reg[({op['src']}:{op['src_sp']}, {op['dst']}:{op['dst_sp']})]"
+    if op["op"] == "copy":
+        return "reg = copy.deepcopy(reg)"
+    return f"a query ({op['src']}, {op['dst']})"
+
+
+def _oracle_regseq(case, out):
+    """after every operation the registry answers every question the way the rule says for what is
+    registered NOW (numpy algebra on the matrices written down from the case), and the way a registry
+    built on the spot from the same contents answers"""
+    contents = _seq_contents(case)
+    probes = _probe_queries(case)
+    steps = out["steps"]
+    if len(steps) != len(contents):
+        return f"{len(steps)} steps observed, {len(contents)} expected"
+
+    def check_obs(obs, cont, when):
+        table = {k: _spec_matrix(sp) for k, sp in cont.items()}
+        if obs.get("len") != len(table):
+            return f"{when}: registry holds {obs.get('len')} entries, {len(table)} keys are registered"
+        for qd, ans, fresh in zip(probes, obs["probes"], obs["fresh"]):
+            f = _check_query(qd, ans, table)
+            if f:
+                return f"{when} (registered now: {sorted(table)}): {f}"
+            if qd["arg"]["kind"] in MALFORMED or _norm_name(qd["src"], qd["src_sp"]) is None or _norm_name(qd["dst"], qd["dst_sp"]) is None:
+                continue
+            d = _cmp(ans, fresh)
+            if d:
+                return (f"{when}: transform(({qd['src']}, {qd['dst']})) = {_short(ans)} but a registry freshly built from the "
+                        f"current contents {sorted(table)} answers {_short(fresh)}")
+        return None
+
+    history = []
+    for i, (obs, cont) in enumerate(zip(steps, contents)):
+        op = case["ops"][i - 1] if i else None
+        history.append(_describe_op(op))
+        when = "after " + "; ".join(history[-3:])
+        res = obs["res"]
+        if op is not None:
+            if op["op"] == "set" and res is not None:
+                return f"{when}: the assignment raised {res}"
+            if op["op"] == "del" and res is not None and (op["src"], op["dst"]) in contents[i - 1]:
+                return f"{when}: deleting a registered key raised {res}"
+            if op["op"] == "query":
+                f = _check_query(op, res, {k: _spec_matrix(sp) for k, sp in cont.items()})
+                if f:
+                    return f"{when}: {f}"
+        f = check_obs(obs, cont, when)
+        if f:
+            return f
+    # registries left behind by deepcopy: unaffected by what happened to the copy
+    ci = [i + 1 for i, op in enumerate(case["ops"]) if op["op"] == "copy"]
+    if len(ci) != len(out["olds"]):
+        return f"{len(out['olds'])} registries left behind, {len(ci)} expected"
+    for j, (obs, i) in enumerate(zip(out["olds"], ci)):
+        f = check_obs(obs, contents[i], f"the original of deepcopy #{j}, asked after the copy went through {len(case['ops']) - i} more operations")
+        if f:
+            return f
+    return None
+
+
+def _oracle_alias(case, out):
+    """a transform agrees with ITSELF before and after the caller changes, in place, the arrays it was
+    built from: whatever 4x4 matrix it presents, transform / inv / dot are that matrix's product,
+    inverse and composition.  Before the change the matrix is the one written down from the case."""
+    import numpy as np
+
+    if "before" not in out or "after" not in out:
+        return f"building a transform from numpy arrays failed: {_short(out)}"
+    spec, pr = case["mat"], case["probe"]
+    src, dst = _norm_name(spec["src"], spec["src_sp"]), _norm_name(spec["dst"], spec["dst_sp"])
+    zf, wf = case["post"]["dst"], case["pre"]["src"]
+    MB, MC = _spec_matrix(case["post"]), _spec_matrix(case["pre"])
+    G = _pose_matrix(pr["pos"], pr["q"])
+    probe_pose = _pose_of_matrix(G)
+    mut = case["mut"]
+    for phase in ("before", "after"):
+        d = out[phase]
+        tag = "A" if phase == "before" else f"A (after the caller changed its {mut['what']} array(s) in place, {mut['how']})"
+        if phase == "before":
+            M = _spec_matrix(spec)
+        else:
+            M = np.array(d["m"]["mat"], dtype=float)
+            if M.shape != (4, 4):
+                return f"{tag}: .matrix is not 4x4"
+        f = _check_info(tag, d, M, src, dst, probe_pose, G)
+        if f:
+            return f
+        eye = np.eye(4)
+        for k, want, ws, wd, what in (
+            ("post", MB @ M, src, zf, "B.dot(A)"), ("post_tf", MB @ M, src, zf, "A.transform(B)"),
+            ("pre", M @ MC, wf, dst, "A.dot(C)"), ("pre_tf", M @ MC, wf, dst, "C.transform(matrix=A)"),
+            ("inv_dot", eye, src, src, "A.inv().dot(A)"), ("dot_inv", eye, dst, dst, "A.dot(A.inv())"),
+        ):
+            c = d[k]
+            if "err" in c:
+                return f"{tag}: {what} raised {c['err']}"
+            if "mat" not in c or (c["src"], c["dst"]) != (ws, wd):
+                return f"{tag}: {what} is labelled {c.get('src')}->{c.get('dst')}, expected {ws}->{wd}"
+            if not _close_list(c["mat"], want):
+                return f"{tag}: {what}.matrix = {c['mat']} but the matrix product of A.matrix with the other matrix is {want.tolist()}"
+        if not _pose_close(d["reg_fwd"], _pose_of_matrix(M @ G)):
+            return f"{tag}: TransformDict(A).transform((src, dst), p, r) = {d['reg_fwd']}, A.matrix gives {_pose_of_matrix(M @ G)}"
+        if not _pose_close(d["reg_rt"], probe_pose):
+            return f"{tag}: registry src->dst then dst->src (inverse of the registered A) = {d['reg_rt']}, original pose {probe_pose}"
+    if not out.get("inputs_intact"):
+        return "the library wrote into the caller's arrays"
     return None
 
 
@@ -812,9 +1368,94 @@ def _is_identity(spec):
     return all(c == 0 for c in spec["pos"]) and [abs(_F(c)) for c in spec["q"]] == [1, 0, 0, 0]
 
 
+def _rule(s, t, keys):
+    if s is None or t is None:
+        return "bad-name"
+    if s == t:
+        return "identity"
+    if (s, t) in keys:
+        return "direct"
+    if (t, s) in keys:
+        return "inverse"
+    return "missing"
+
+
+def _branches_regseq(case, out):
+    br = [f"seq:init:{case['init']}:n={len(case['mats'])}", f"seq:ops={len(case['ops'])}", f"seq:probe-arg:{case['parg']['kind']}",
+          f"seq:pool={int(math.isqrt(max(0, len(case['probes']) - 2)))}"]
+    contents = _seq_contents(case)
+    copied = False
+    asked_inverse = set()  # keys that have been answered through the inverse of the reverse entry so far
+    for i, obs in enumerate(out["steps"]):
+        keys = contents[i]
+        if i:
+            op = case["ops"][i - 1]
+            prev = contents[i - 1]
+            res = obs["res"]
+            tag = "-on-copy" if copied else ""
+            if op["op"] == "set":
+                k = _spec_key(op["mat"])
+                rev = (k[1], k[0])
+                how = "self-loop" if k[0] == k[1] else ("overwrite" if k in prev else "new")
+                if k[0] != k[1]:
+                    how += "+reverse-registered" if rev in prev else "+reverse-absent"
+                br.append(f"seq:set{tag}:{how}")
+                if rev in asked_inverse and rev not in prev and k in prev:
+                    br.append(f"seq:stale-risk{tag}:overwrite-after-inverse-answer")
+                if k in asked_inverse:
+                    br.append(f"seq:stale-risk{tag}:direct-registered-after-inverse-answer")
+                br.append(f"seq:key-form:set:{op['form']}")
+            elif op["op"] == "del":
+                k = (op["src"], op["dst"])
+                rev = (k[1], k[0])
+                if k in prev:
+                    br.append(f"seq:del{tag}:present:" + ("reverse-stays" if rev in prev and rev != k else "pair-gone"))
+                    if rev in asked_inverse and rev not in prev:
+                        br.append(f"seq:stale-risk{tag}:delete-after-inverse-answer")
+                else:
+                    br.append(f"seq:del{tag}:absent:{(res or {}).get('err', 'ok')}")
+                br.append(f"seq:key-form:del:{op['form']}")
+            elif op["op"] == "copy":
+                copied = True
+                br.append("seq:deepcopy")
+            else:
+                r = _rule(_norm_name(op["src"], op["src_sp"]), _norm_name(op["dst"], op["dst_sp"]), keys)
+                br.append(f"seq:query:{r}:{op['arg']['kind']}:{res.get('err') or res.get('arg_err') or 'ok'}")
+        for pq, ans in zip(case["probes"], obs["probes"]):
+            r = _rule(pq["src"], pq["dst"], keys)
+            br.append(f"seq:probe:{r}:{ans.get('err', 'ok')}")
+            if r == "inverse":
+                asked_inverse.add((pq["src"], pq["dst"]))
+    for _ in out["olds"]:
+        br.append("seq:original-of-copy-asked-at-the-end")
+    return br
+
+
+def _branches_alias(case, out):
+    b, mut = case["build"], case["mut"]
+    br = [f"alias:build:{b['how']}" + (f":{b['rot_form']}" if b["how"] == "ctor" else ""), f"alias:change:{mut['what']}:{mut['how']}",
+          f"probe:{case['probe']['rot_form']}:{case['probe']['call']}"]
+    if "after" in out:
+        br.append(f"alias:after:matrix-{_alias_after_spec(case, out)[1]}")
+        try:
+            fol = _alias_follow_spec(case)
+            if mut["what"] in ("pos", "both"):
+                br.append("alias:after:position-attribute-" + ("follows-buffer" if _close_list(out["after"]["m"]["pos"], fol["pos"]) else "kept"))
+        except Exception:  # noqa
+            pass
+        br.append("alias:inputs-intact" if out.get("inputs_intact") else "alias:inputs-written")
+    else:
+        br.append("alias:run-failed")
+    return br
+
+
 def branches(case, out):
     br = []
     k = case["kind"]
+    if k == "alias":
+        return _branches_alias(case, out)
+    if k == "regseq" and "steps" in out:
+        return _branches_regseq(case, out)
     if "err" in out and "answers" not in out and "mats" not in out:
         return [f"{k}:construct-err:{out['err']}"]
     for s in case["mats"]:
@@ -862,10 +1503,61 @@ def branches(case, out):
     return br
 
 
+def _shrink_new(case):
+    import copy
+
+    one = ["1", "0", "0", "0"]
+    if case["kind"] == "regseq":
+        for i in reversed(range(len(case["ops"]))):
+            c = copy.deepcopy(case); del c["ops"][i]; yield c
+        for i in range(len(case["mats"])):
+            c = copy.deepcopy(case); del c["mats"][i]
+            if c["init"] == "single" or (c["init"] == "none" and c["mats"]):
+                c["init"] = "list"
+            yield c
+        if len(case["probes"]) > 1:
+            for i in range(len(case["probes"])):
+                c = copy.deepcopy(case); del c["probes"][i]; yield c
+        if case["init"] not in ("list", "none"):
+            c = copy.deepcopy(case); c["init"] = "list"; yield c
+        if case["parg"]["kind"] == "pose":
+            c = copy.deepcopy(case); c["parg"] = {"kind": "pos", "pos": case["parg"]["pos"]}; yield c
+        specs = [("mats", i) for i in range(len(case["mats"]))] + [("ops", i) for i, op in enumerate(case["ops"]) if op["op"] == "set"]
+        for where, i in specs:
+            sp = case[where][i] if where == "mats" else case[where][i]["mat"]
+            for key, val in (("q", one), ("input", "tuple"), ("src_sp", "member"), ("dst_sp", "member")):
+                if sp[key] != val:
+                    c = copy.deepcopy(case)
+                    (c[where][i] if where == "mats" else c[where][i]["mat"])[key] = val
+                    yield c
+        for where in ("ops", "probes"):
+            for i, op in enumerate(case[where]):
+                for key, val in (("src_sp", "member"), ("dst_sp", "member"), ("form", "tuple"), ("call", "args")):
+                    if key in op and op[key] != val:
+                        c = copy.deepcopy(case); c[where][i][key] = val; yield c
+        return
+    # alias
+    for name in ("mat", "post", "pre"):
+        for key, val in (("q", one), ("pos", [0.0, 0.0, 0.0]), ("src_sp", "member"), ("dst_sp", "member")):
+            if case[name][key] != val and not (name == "mat" and key == "pos" and case["mut"]["how"] == "zero"):
+                c = copy.deepcopy(case); c[name][key] = val; yield c
+    if case["mut"]["what"] == "both":
+        for w in ("pos", "rot"):
+            c = copy.deepcopy(case); c["mut"]["what"] = w; yield c
+    if case["mut"]["how"] != "assign" and case["mut"]["what"] != "rot":
+        c = copy.deepcopy(case); c["mut"]["how"] = "assign"; yield c
+    for key, val in (("q", one), ("pos", [1.0, 0.0, 0.0]), ("rot_form", "tuple"), ("call", "args")):
+        if case["probe"][key] != val:
+            c = copy.deepcopy(case); c["probe"][key] = val; yield c
+
+
 def shrink(case):
     import copy
 
     one = ["1", "0", "0", "0"]
+    if case["kind"] in ("regseq", "alias"):
+        yield from _shrink_new(case)
+        return
     if case["kind"] == "chain":
         n = len(case["mats"])
         if n > 1:
@@ -913,4 +1605,5 @@ def search(rng, st, disagreements):
     for _ in range(2000):
         cases.append(_gen_chain(rng, frames))
         cases.append(_gen_registry(rng, frames))
+    cases.extend(_sequences_and_aliases(rng, frames, 1500))
     return cases
